@@ -3,6 +3,8 @@
 //!   vh-core record <machine> --cfg <id> --seed S --n N --out FILE   real executions -> ndjson trace
 mod bigint;
 mod cfgs;
+mod literal;
+mod gen_lit;
 mod container;
 mod mle;
 mod msm;
@@ -66,6 +68,9 @@ fn replay_mle<F: poly::PF>(big: bool) -> util::Report {
     let stdin = std::io::stdin();
     mle::replay::<F>(util::tlc_transitions(BufReader::new(stdin.lock())), big)
 }
+fn literal_replay<T: ark_ff::MontConfig<N>, const N: usize>(cfg: &str, it: impl Iterator<Item = serde_json::Value>) -> util::Report {
+    literal::replay::<T, N>(cfg, it)
+}
 fn replay_bigint<const N: usize>() -> util::Report {
     let stdin = std::io::stdin();
     bigint::replay::<N>(util::tlc_transitions(BufReader::new(stdin.lock())))
@@ -92,6 +97,11 @@ fn main() {
         ("replay", "msm") if !big => with_toy_curve!(cfg.as_str(), replay_msm(big)),
         ("replay", "mle") if !big => with_toy_prime_field!(cfg.as_str(), replay_mle(big)),
         ("replay", "container") => { let stdin = std::io::stdin(); container::replay(util::tlc_transitions(BufReader::new(stdin.lock()))) }
+        ("replay", "literal") => {
+            let stdin = std::io::stdin();
+            let it = util::tlc_transitions(BufReader::new(stdin.lock()));
+            with_zoo_config!(cfg.as_str(), literal_replay(cfg.as_str(), it))
+        }
         ("replay", "bigint") => { let nl: usize = cfg.parse().expect("--cfg <limbs>"); with_limbs!(nl, replay_bigint()) }
         ("record", "curve") => {
             let seed: u64 = arg(&args, "--seed").and_then(|s| s.parse().ok()).unwrap_or(1);
